@@ -166,15 +166,15 @@ STD_VALUES = {
 
 def r3_std_constants(ctx, nf) -> None:
     prog = ctx.program
-    std = Std(prog, ctx.pkg)
+    std = Std(prog, ctx.pkg, ctx.canon)
     for (mn, cname), (ext, key, kind) in STD_VALUES.items():
         m = prog.module(mn)
         c = m.classes.get(cname)
         if c is None:
             ctx.broken(f"anchor vanished: {mn}.{cname}")
-        tv = c.methods.get("to_value")
-        if tv is None:
+        if c.methods.get("to_value") is None:
             ctx.broken(f"anchor vanished: {mn}.{cname}.to_value")
+        tv = ctx.cfn(f"{mn}.{cname}.to_value")      # canonical: locals substituted, arguments in the callee's positional layout
         calls = [x for x in calls_in(tv) if u(x.func) in ("val.Extension", "Extension")]
         if len(calls) != 1:
             ctx.broken(f"{mn}.{cname}.to_value: expected one val.Extension(...) call")
@@ -203,7 +203,7 @@ def r3_std_constants(ctx, nf) -> None:
                 ctx.check(bool(ok), "C14.R3", f"{mn}.{cname}: width", m.path, tv.lineno, "an integer constant of width w reports int<w>", call, found=str(args))
             if kind in ("sized", "elem"):
                 loc = d[5]
-                init = c.methods.get("__init__")
+                init = ctx.cfn(f"{mn}.{cname}.__init__")
                 iparams = [a.arg for a in init.args.args[1:]]
                 # elem type parameter flows into the type; for arrays the size is len(v)
                 src = {p: u(loc[p][1]) for p in loc if isinstance(loc[p], tuple) and loc[p][0] == "expr"}
